@@ -335,7 +335,7 @@ def r7(fx):
             def visit_Name(self, node):
                 if isinstance(node.ctx, ast.Load) and node.id in ldefs:
                     import copy as _c
-                    return _c.deepcopy(ldefs[node.id])
+                    return nf.clone(ldefs[node.id])
                 return node
         import copy as _copy
         got_f = ('or', [])
@@ -353,13 +353,13 @@ def r7(fx):
             c_, p_ = x, x._parent
             while p_ is not w:
                 if isinstance(p_, ast.If):
-                    t = Sub().visit(_copy.deepcopy(p_.test))
+                    t = Sub().visit(nf.clone(p_.test))
                     gs.append(nf.prop(t) if c_ in p_.body else ('not', nf.prop(t)))
                 c_, p_ = p_, p_._parent
             conds.append(('and', gs))
         got_f = ('or', conds)
         names = {n.id for x in sc for g in [x] for a_ in src.ancestors(x) if isinstance(a_, ast.If) and a_ is not w
-                 for n in ast.walk(Sub().visit(_copy.deepcopy(a_.test))) if isinstance(n, ast.Name)} - {iv} - set(dir(__import__('builtins')))
+                 for n in ast.walk(Sub().visit(nf.clone(a_.test))) if isinstance(n, ast.Name)} - {iv} - set(dir(__import__('builtins')))
         seq_names = {n.id for n in ast.walk(f.func.value) if isinstance(n, ast.Name)}
         size_names = sorted(names - seq_names)
         need(len(size_names) == 1, f'N3 scoring condition mentions {size_names} besides the line and the index: cannot tell the size variable')
